@@ -50,6 +50,8 @@ pub enum Corrupt {
 #[derive(Clone, Debug, Serialize, Deserialize)]
 pub enum Step {
     Claim { k: usize, corrupt: Corrupt },
+    /// the clock: "claimed forever" must survive any amount of time (storage lifetimes)
+    Advance { n: u32 },
 }
 #[derive(Clone, Debug, Serialize, Deserialize)]
 pub struct Cfg {
@@ -112,6 +114,9 @@ impl Check for Merkle {
     fn components(&self) -> serde_json::Value {
         serde_json::json!({"real": ["examples/fungible-merkle-airdrop (from source)", "merkle_distributor::*", "crypto::{merkle::Verifier, hashable, sha256}", "fungible Base token"], "stub": ["reference tree builder in the harness (hash primitive = host sha256)"]})
     }
+    fn probes(&self, _prop: &str) -> std::vec::Vec<&'static str> {
+        vec!["probe.claimed_flag_queried_after_long_time", "fault.corrupted_claim"]
+    }
     fn dup_ok(&self, _s: &Step) -> bool {
         true
     }
@@ -124,6 +129,10 @@ impl Check for Merkle {
         let nsteps = if tier == Tier::Quick { 15 + rng.below(40) } else { 15 + rng.below(120) } as usize;
         let mut steps = vec![];
         for _ in 0..nsteps {
+            if rng.chance(10) {
+                steps.push(Step::Advance { n: match rng.below(4) { 0 => 1 + rng.below(20) as u32, 1 => 4_000 + rng.below(30_000) as u32, 2 => 100_000 + rng.below(1_000_000) as u32, _ => 2_000_000 + rng.below(5_000_000) as u32 } });
+                continue;
+            }
             let k = rng.below(n as u64) as usize;
             let corrupt = if rng.chance(45) {
                 Corrupt::None
@@ -162,8 +171,30 @@ impl Check for Merkle {
         let mut claimed = vec![false; n];
         let mut bal = vec![0i128; 5];
         let mut pool = funding;
+        let mut since_first_claim: u64 = 0;
         for (i, s) in steps.iter().enumerate() {
-            let Step::Claim { k, corrupt } = s;
+            let (k, corrupt) = match s {
+                Step::Claim { k, corrupt } => (k, corrupt),
+                Step::Advance { n: adv } => {
+                    w.advance(*adv);
+                    st.ledgers += *adv as u64;
+                    st.hit("clock.advance");
+                    if claimed.iter().any(|x| *x) {
+                        since_first_claim += *adv as u64;
+                        if since_first_claim > 600_000 {
+                            st.hit("probe.claimed_flag_queried_after_long_time");
+                        }
+                    }
+                    // nothing may change by the passage of time
+                    for x in 0..n as u32 + 2 {
+                        let want = (x as usize) < n && claimed[x as usize];
+                        if c.is_claimed(&x) != want {
+                            return Err(violation("claim.once_forever", "is_claimed_after_time", i, format!("is_claimed({x}) = {}, model {want} after advancing {adv} ledgers", !want)));
+                        }
+                    }
+                    continue;
+                }
+            };
             let (r, amt) = cfg.leaves[*k];
             let mut index = *k as u32;
             let mut receiver = r;
